@@ -18,6 +18,7 @@ pub(crate) struct TooNarrow;
 
 impl From<TooNarrow> for crate::Error {
     fn from(_: TooNarrow) -> crate::Error {
+        verif_tick!(ProbeTooNarrow);
         crate::Error::TooNarrow
     }
 }
